@@ -318,9 +318,7 @@ impl<'a> View<'a> {
                     | OpWhat::TryHalt
                     | OpWhat::Consume
                     | OpWhat::ConsumeSync
-                    | OpWhat::EndStream
-                    // dropping / giving away / consuming handles may release the last one
-                    | OpWhat::Drop => upd(*a, e.stamp),
+                    | OpWhat::EndStream => upd(*a, e.stamp),
                     _ => {}
                 },
                 // registry manipulation may release the registry's strong entry
